@@ -21,7 +21,7 @@ def run(ctx):
                'otherwise well-formed packet of those sizes (so every single-/double-bit corruption of those packets is included)',
         outside='payloads longer than 3 bytes (the accumulator is a fold; longer payloads add no new carry behaviour beyond 8 words + odd byte, stated '
                 'not proved); maximal lengths',
-        jobs=8, timeout=1700 if ctx.quick else 3400)
+        jobs=8, timeout=3000 if ctx.quick else 5000)
 
 
 MANIFEST = {
